@@ -34,6 +34,8 @@ def _gen_filters(rng, dump, stream_ids, tids, procs):
         f['cls'] = [rng.pick(classes + [0x99]) for _ in range(rng.randint(1, 3))] if classes else [0x99]
     elif r < 0.55:
         f['sub'] = [rng.pick(subs + [0x9999]) for _ in range(rng.randint(1, 3))] if subs else [0x9999]
+        if classes and rng.chance(0.2):
+            f['sub'].append(rng.pick(classes))       # a subclass value below 0x100 (class 0): it is not that class
     elif r < 0.75:
         f['cls'] = [rng.pick(classes + [0x99])] if classes else [0x99]
         f['sub'] = [rng.pick(subs + [0x9999]) for _ in range(rng.randint(1, 2))] if subs else [0x9999]
@@ -42,6 +44,8 @@ def _gen_filters(rng, dump, stream_ids, tids, procs):
         f['sub'] = []
     if rng.chance(0.3):
         f['proc'] = rng.pick(procs) if procs and rng.chance(0.8) else rng.pick(['nosuch', '', '0'])
+        if len(f['proc']) > 19 and rng.chance(0.5):
+            f['proc'] = f['proc'][:19]          # the name as a thread map would have truncated it: a different string
         if f['proc'].isdigit() and rng.chance(0.3):
             # not the decimal text of the pid, only something int() would accept
             f['proc'] = rng.pick(['0' + f['proc'], '+' + f['proc'], ' ' + f['proc'], f['proc'] + ' ', f['proc'][:1] + '_' + f['proc'][1:] if len(f['proc']) > 1 else '00' + f['proc']])
@@ -59,6 +63,11 @@ def generate(rng, index, tier):
         used = sorted({r['id'] >> 24 for th in d['threads'] for r in worlds.kernel.expand_threads([th], worlds.catalog()['ids'])[0]}) or [4]
         for _ in range(rng.randint(0, 4)):
             c = (rng.pick(used) + rng.pick([0, 0, 0, 1, -1])) & 0xff
+            if rng.chance(0.2):
+                # class 0 with a subclass byte that equals a class in use (0x00040010 is not a class-4 event)
+                th = rng.pick(d['threads'])
+                th['ops'].insert(rng.randrange(len(th['ops']) + 1),
+                                 {'k': 'raw', 'id': (rng.pick(used) << 16) | (rng.randrange(0, 1 << 14) << 2), 'q': rng.randrange(4), 'a': rng.words()})
             sub = rng.pick([0x00, 0xff, 0xfe, 0x01, rng.randrange(256)])
             code = rng.pick([0, 0xfffc, rng.randrange(0, 1 << 14) << 2])
             th = rng.pick(d['threads'])
